@@ -374,6 +374,20 @@ inline std::string gen_tail(Rng& r) {  // path?query#fragment
 inline std::string gen_port(Rng& r) {
   static const char* const p[] = {"",    ":",     ":80",   ":443",   ":8080", ":65535", ":65536", ":00080",
                                   ":0",  ":21",   ":99999", ":8a",   ":-1",   ":1",     ":12345", ":000000000443"};
+  if (r.chance(1, 8)) {
+    // numerically interesting ports: around 2^16, 2^32 and 2^64 (a value that wraps around in a 16/32/64-bit
+    // accumulator lands on a small valid port), long digit strings, leading zeros in front of each
+    static const char* const big[] = {"65535", "65536", "65537", "131072", "4294967295", "4294967296", "4294967376", "4294967739",
+                                      "8589934613", "18446744073709551616", "18446744073709551696", "99999999999999999999"};
+    std::string o = ":";
+    if (r.chance(1, 4)) o += std::string(r.range(1, 12), '0');
+    if (r.chance(2, 3)) o += pick(r, big);
+    else {
+      int n = r.range(1, 21);
+      for (int i = 0; i < n; i++) o += char('0' + r.below(10));
+    }
+    return o;
+  }
   return r.chance(1, 2) ? "" : pick(r, p);
 }
 
